@@ -5,6 +5,284 @@ Import ListNotations.
 Local Open Scope Z_scope.
 Ltac Zify.zify_post_hook ::= Z.div_mod_to_equations.
 
+(* ---------------------------------------------------------------- 64-bit arithmetic *)
+Lemma W_pow : W = 2 ^ 64. Proof. reflexivity. Qed.
+
+Lemma wrap_small x : 0 <= x < W -> wrap x = x.
+Proof. intros. unfold wrap. apply Z.mod_small; lia. Qed.
+
+(* x & ~(2^k - 1) in 64 bits = x - x mod 2^k *)
+Lemma land_mask x k : 0 <= k < 64 -> 0 <= x < W ->
+  Z.land x (wrap (Z.lnot (wrap (2 ^ k - 1)))) = x - x mod 2 ^ k.
+Proof.
+  intros Hk Hx.
+  assert (Hp : 0 < 2 ^ k) by (apply Z.pow_pos_nonneg; lia).
+  assert (Hlt : 2 ^ k < W) by (rewrite W_pow; apply Z.pow_lt_mono_r; lia).
+  rewrite (wrap_small (2 ^ k - 1)) by lia.
+  replace (2 ^ k - 1) with (Z.ones k) by (rewrite Z.ones_equiv; lia).
+  unfold wrap. rewrite W_pow. rewrite <- (Z.land_ones _ 64) by lia.
+  rewrite Z.land_assoc.
+  rewrite (Z.land_comm x (Z.lnot (Z.ones k))), <- Z.land_assoc.
+  rewrite (Z.land_ones x 64) by lia. rewrite <- W_pow, (Z.mod_small x W) by lia.
+  rewrite Z.land_comm, <- Z.ldiff_land, Z.ldiff_ones_r by lia.
+  rewrite Z.shiftr_div_pow2, Z.shiftl_mul_pow2 by lia.
+  pose proof (Z.div_mod x (2 ^ k)). lia.
+Qed.
+
+Lemma W_multiple k : 0 <= k < 64 -> W = 2 ^ k * 2 ^ (64 - k).
+Proof. intros. rewrite <- Z.pow_add_r by lia. rewrite W_pow. f_equal. lia. Qed.
+
+(* rounding a up to a multiple of al adds (-a) mod al *)
+Lemma round_up_exact a al : 0 < al ->
+  (a + al - 1) - (a + al - 1) mod al = a + (- a) mod al.
+Proof.
+  intros Hal.
+  pose proof (Z.mod_pos_bound (- a) al Hal) as Hr.
+  pose proof (Z.div_mod (- a) al ltac:(lia)) as Hd.
+  set (r := (- a) mod al) in *. set (q := (- a) / al) in *.
+  assert (E : (a + al - 1) mod al = al - 1 - r).
+  { symmetry. apply (Zmod_unique _ _ (- q)); lia. }
+  lia.
+Qed.
+
+Lemma round_up_pow2 a k : 0 <= k < 64 -> 0 <= a < W ->
+  round_up_multiple a (2 ^ k) = wrap (a + (- a) mod 2 ^ k).
+Proof.
+  intros Hk Ha.
+  assert (Hp : 0 < 2 ^ k) by (apply Z.pow_pos_nonneg; lia).
+  assert (Hw' : 0 < 2 ^ (64 - k)) by (apply Z.pow_pos_nonneg; lia).
+  pose proof (W_multiple k Hk) as HW.
+  unfold round_up_multiple.
+  assert (Hx : 0 <= wrap (a + 2 ^ k - 1) < W) by (unfold wrap; apply Z.mod_pos_bound; reflexivity).
+  rewrite land_mask by assumption.
+  set (al := 2 ^ k) in *. set (w' := 2 ^ (64 - k)) in *.
+  pose proof (round_up_exact a al Hp) as Hm.
+  pose proof (Z.mod_pos_bound (- a) al Hp) as Hr.
+  set (pad := (- a) mod al) in *.
+  set (y := a + al - 1) in *.
+  (* m = a + pad is a multiple of al *)
+  assert (Hmul : exists q, a + pad = al * q).
+  { exists (y / al). pose proof (Z.div_mod y al ltac:(lia)). lia. }
+  destruct Hmul as [q Hq].
+  assert (Hym : y mod al = y - (a + pad)) by lia.
+  unfold wrap.
+  destruct (Z_lt_ge_dec y W) as [Hlt | Hge].
+  - rewrite (Z.mod_small y W) by lia. rewrite Hym.
+    rewrite (Z.mod_small (a + pad) W) by lia. lia.
+  - assert (Hy2 : y < 2 * W) by nia.
+    assert (Eyw : y mod W = y - W).
+    { symmetry. apply (Zmod_unique _ _ 1); lia. }
+    rewrite Eyw.
+    assert (E1 : (y - W) mod al = y - (a + pad)).
+    { symmetry. apply (Zmod_unique _ _ (q - w')); [lia | nia]. }
+    rewrite E1.
+    assert (Hqw : w' <= q) by nia.
+    assert (Emw : (a + pad) mod W = a + pad - W).
+    { symmetry. apply (Zmod_unique _ _ 1); [nia | lia]. }
+    rewrite Emw. lia.
+Qed.
+
+Lemma round_up_8 n : 0 <= n < W -> round_up_multiple n 8 = wrap (n + (- n) mod 8).
+Proof. intros. change 8 with (2 ^ 3). apply round_up_pow2; lia. Qed.
+
+(* the rounded size computed by malloc/realloc: either the exact rounded size, or the wrap is detected *)
+Lemma real_size_spec n :
+  0 <= n < W ->
+  let real := round_up_multiple (if n =? 0 then 1 else n) 8 in
+  (rounded n < W /\ real = rounded n /\ (real <? n) = false) \/
+  (W <= rounded n /\ (real <? n) = true).
+Proof.
+  intros Hn real. subst real.
+  assert (EX : (if n =? 0 then 1 else n) = Z.max n 1) by (destruct (n =? 0) eqn:E; lia).
+  rewrite EX. rewrite round_up_8 by (unfold W in *; lia).
+  unfold wrap, rounded, extent, W in *.
+  set (X := Z.max n 1) in *. assert (HX : 1 <= X < 18446744073709551616 /\ (X = n \/ (n = 0 /\ X = 1))) by (subst X; lia). clearbody X.
+  set (p := (- X) mod 8). assert (Hp : 0 <= p < 8 /\ (X + p) mod 8 = 0) by (subst p; lia).
+  assert (8 * ((X + 7) / 8) = X + p) as -> by lia.
+  clearbody p.
+  destruct (Z_lt_ge_dec (X + p) 18446744073709551616).
+  - left. rewrite Z.mod_small by lia. lia.
+  - right. assert ((X + p) mod 18446744073709551616 = X + p - 18446744073709551616) as ->.
+    { symmetry. apply (Zmod_unique _ _ 1); lia. } lia.
+Qed.
+
+Lemma rounded_facts n : 8 <= rounded n /\ Z.max n 1 <= rounded n < Z.max n 1 + 8 /\ rounded n mod 8 = 0.
+Proof. unfold rounded, extent. lia. Qed.
+
+Definition st_ok (A C : Z) (s : state) : Prop :=
+  0 <= last s <= top s /\ (A + top s) mod 8 = 0 /\ (top s <= C \/ top s < 8).
+
+Lemma bump_malloc_char A C s n :
+  0 < A -> 0 <= C -> A + C < W -> st_ok A C s -> 0 <= n < W ->
+  bump_malloc A C s n =
+    if top s + rounded n <=? C
+    then ({| top := top s + rounded n; last := top s |}, RPtr (A + top s))
+    else (s, RNull).
+Proof.
+  intros HA HC HAC (Hl & Hal & Hcap) Hn.
+  unfold bump_malloc, min_alignment.
+  assert (Eas : (wrap (A + top s) mod 8 =? 0) = true) by (unfold wrap, W in *; lia).
+  rewrite Eas. cbn [negb].
+  pose proof (rounded_facts n) as Hr.
+  destruct (real_size_spec n Hn) as [(Hlt & -> & ->) | (Hge & ->)]; cbn [orb].
+  - destruct (top s >? C) eqn:E1; cbn [orb].
+    + destruct (top s + rounded n <=? C) eqn:E2; [lia | reflexivity].
+    + rewrite (wrap_small (C - top s)) by (unfold W in *; lia).
+      destruct (rounded n >? C - top s) eqn:E3; destruct (top s + rounded n <=? C) eqn:E2; try lia; try reflexivity.
+      rewrite (wrap_small (top s + rounded n)), (wrap_small (A + top s)) by (unfold W in *; lia). reflexivity.
+  - destruct (top s + rounded n <=? C) eqn:E2; [unfold W in *; lia | reflexivity].
+Qed.
+
+Lemma bump_realloc_char A C s p n :
+  0 <= C < W -> 0 <= last s -> 0 <= n < W ->
+  bump_realloc A C s p n =
+    if (p =? wrap (A + last s)) && (last s + rounded n <=? C)
+    then ({| top := last s + rounded n; last := last s |}, RPtr p)
+    else (s, RNull).
+Proof.
+  intros HC Hl Hn. unfold bump_realloc.
+  destruct (p =? wrap (A + last s)) eqn:Ep; cbn [negb andb]; [|reflexivity]. cbv zeta. unfold min_alignment.
+  pose proof (rounded_facts n) as Hr.
+  destruct (real_size_spec n Hn) as [(Hlt & -> & ->) | (Hge & ->)]; cbn [orb].
+  - destruct (last s >? C) eqn:E1; cbn [orb].
+    + destruct (last s + rounded n <=? C) eqn:E2; [lia | reflexivity].
+    + rewrite (wrap_small (C - last s)) by (unfold W in *; lia).
+      destruct (rounded n >? C - last s) eqn:E3; destruct (last s + rounded n <=? C) eqn:E2; try lia; try reflexivity.
+      rewrite (wrap_small (last s + rounded n)) by (unfold W in *; lia). reflexivity.
+  - destruct (last s + rounded n <=? C) eqn:E2; [unfold W in *; lia | reflexivity].
+Qed.
+
+Lemma calloc_overflow_test a b : 0 <= a -> 0 <= b ->
+  (negb (b =? 0) && (a >? SIZE_MAX / b)) = (W <=? a * b).
+Proof.
+  intros Ha Hb. unfold SIZE_MAX.
+  destruct (b =? 0) eqn:Eb; cbn [negb andb].
+  - assert (b = 0) by lia. subst. rewrite Z.mul_0_r. reflexivity.
+  - assert (0 < b) by lia.
+    destruct (W <=? a * b) eqn:E.
+    + assert ((W - 1) / b < a) by (apply Z.div_lt_upper_bound; lia). lia.
+    + assert (a <= (W - 1) / b) by (apply Z.div_le_lower_bound; lia). lia.
+Qed.
+
+Lemma bump_calloc_char A C s m a b :
+  0 < A -> 0 <= C -> A + C < W -> st_ok A C s -> 0 <= a < W -> 0 <= b < W ->
+  bump_calloc A C s m a b =
+    if top s + rounded (a * b) <=? C
+    then ({| top := top s + rounded (a * b); last := top s |}, memset0 m (A + top s) (a * b), RPtr (A + top s))
+    else (s, m, RNull).
+Proof.
+  intros HA HC HAC Hst Ha Hb. unfold bump_calloc.
+  rewrite calloc_overflow_test by lia.
+  pose proof (rounded_facts (a * b)) as Hr.
+  destruct (W <=? a * b) eqn:E.
+  - destruct (top s + rounded (a * b) <=? C) eqn:E2; [|reflexivity].
+    destruct Hst as (? & ? & ?). lia.
+  - assert (0 <= a * b) by nia.
+    rewrite (wrap_small (a * b)) by lia.
+    rewrite bump_malloc_char by (auto; lia).
+    destruct (top s + rounded (a * b) <=? C); reflexivity.
+Qed.
+
+Lemma is_pow2_pos_exists p : is_pow2_pos p = true -> exists k, 0 <= k /\ Zpos p = 2 ^ k.
+Proof.
+  induction p as [p IH | p IH |]; cbn [is_pow2_pos]; intros H; try discriminate.
+  - destruct (IH H) as (k & Hk & E). exists (k + 1). split; [lia|].
+    rewrite Z.pow_add_r, <- E by lia. lia.
+  - exists 0. split; [lia | reflexivity].
+Qed.
+
+Lemma align_ok_pow2 al n : align_ok al n = true ->
+  exists k, 3 <= k < 64 /\ al = 2 ^ k /\ n mod al = 0.
+Proof.
+  unfold align_ok. intros H.
+  apply andb_true_iff in H as [H Hmod]. apply andb_true_iff in H as [H Hlt].
+  apply andb_true_iff in H as [Hp Hge].
+  destruct al as [|p|p]; cbn [is_pow2] in Hp; try discriminate.
+  destruct (is_pow2_pos_exists p Hp) as (k & Hk & E).
+  exists k. rewrite E in *. split; [|split; [reflexivity | lia]].
+  split.
+  - destruct (Z_lt_ge_dec k 3) as [Hk3|]; [|lia].
+    assert (2 ^ k < 2 ^ 3) by (apply Z.pow_lt_mono_r; lia). lia.
+  - destruct (Z_lt_ge_dec k 64) as [|Hk64]; [lia|].
+    assert (2 ^ 64 <= 2 ^ k) by (apply Z.pow_le_mono_r; lia). unfold W in *. lia.
+Qed.
+
+Lemma round_asserts_pow2 k : 0 <= k < 64 -> round_asserts (2 ^ k) = true.
+Proof.
+  intros Hk. unfold round_asserts.
+  assert (Hp : 0 < 2 ^ k) by (apply Z.pow_pos_nonneg; lia).
+  assert (Hlt : 2 ^ k < W) by (rewrite W_pow; apply Z.pow_lt_mono_r; lia).
+  rewrite (wrap_small (2 ^ k - 1)) by lia.
+  replace (2 ^ k - 1) with (Z.ones k) by (rewrite Z.ones_equiv; lia).
+  rewrite Z.land_ones by lia. rewrite Z.mod_same by lia.
+  destruct (2 ^ k =? 0) eqn:E; [lia | reflexivity].
+Qed.
+
+Lemma state_eta s : {| top := top s; last := last s |} = s.
+Proof. destruct s; reflexivity. Qed.
+
+Lemma bump_aligned_alloc_char A C s al n :
+  0 < A -> 0 <= C -> A + C < W -> st_ok A C s -> 0 <= n < W -> align_ok al n = true ->
+  let pad := (- (A + top s)) mod al in
+  bump_aligned_alloc A C s al n =
+    if top s + pad + rounded n <=? C
+    then ({| top := top s + pad + rounded n; last := top s + pad |}, RPtr (A + top s + pad))
+    else (s, RNull).
+Proof.
+  intros HA HC HAC Hst Hn Hal pad.
+  destruct (align_ok_pow2 al n Hal) as (k & Hk & -> & Hmod).
+  assert (Hp : 0 < 2 ^ k) by (apply Z.pow_pos_nonneg; lia).
+  assert (Hw' : 0 < 2 ^ (64 - k)) by (apply Z.pow_pos_nonneg; lia).
+  assert (H8 : 2 ^ k = 8 * 2 ^ (k - 3)).
+  { change 8 with (2 ^ 3). rewrite <- Z.pow_add_r by lia. f_equal. lia. }
+  assert (Hk3 : 0 < 2 ^ (k - 3)) by (apply Z.pow_pos_nonneg; lia).
+  assert (Hle63 : 2 ^ k <= 2 ^ 63) by (apply Z.pow_le_mono_r; lia).
+  pose proof (W_multiple k ltac:(lia)) as HW.
+  pose proof (rounded_facts n) as Hr.
+  unfold bump_aligned_alloc, min_alignment.
+  assert (E1 : (2 ^ k >=? 8) = true) by lia. rewrite E1.
+  assert (E2 : (n mod 2 ^ k =? 0) = true) by lia. rewrite E2.
+  rewrite round_asserts_pow2 by lia. cbn [negb]. cbv zeta.
+  assert (Hta : 0 <= wrap (A + top s) < W) by (unfold wrap; apply Z.mod_pos_bound; reflexivity).
+  rewrite round_up_pow2 by (assumption || lia).
+  (* the padding computed from the (possibly wrapped) address is the padding of the true address *)
+  assert (Epad : (- wrap (A + top s)) mod 2 ^ k = pad).
+  { subst pad. unfold wrap.
+    pose proof (Z.div_mod (A + top s) W ltac:(unfold W; lia)) as Hd.
+    replace (- ((A + top s) mod W)) with (- (A + top s) + (2 ^ (64 - k) * ((A + top s) / W)) * 2 ^ k) by lia.
+    apply Z_mod_plus_full. }
+  rewrite Epad.
+  pose proof (Z.mod_pos_bound (- (A + top s)) (2 ^ k) Hp) as Hpad. fold pad in Hpad.
+  assert (Eoff : wrap (wrap (wrap (A + top s) + pad) - wrap (A + top s)) = pad).
+  { unfold wrap at 1 2. rewrite Zminus_mod_idemp_l.
+    replace (wrap (A + top s) + pad - wrap (A + top s)) with pad by lia.
+    apply Z.mod_small. unfold W in *. lia. }
+  rewrite Eoff.
+  (* A + top + pad is a multiple of the alignment, at most 2^64 *)
+  assert (Hmul : exists q, A + top s + pad = 2 ^ k * q).
+  { exists (- ((- (A + top s)) / 2 ^ k)).
+    pose proof (Z.div_mod (- (A + top s)) (2 ^ k) ltac:(lia)). subst pad. lia. }
+  destruct Hmul as [q Hq].
+  destruct Hst as (Hl & Ha8 & Hcap).
+  assert (Hnw : top s + pad < W).
+  { destruct Hcap as [Hc | Hc]; [|unfold W in *; lia].
+    assert (Hq1 : 2 ^ k * q < 2 ^ k * (2 ^ (64 - k) + 1)) by lia.
+    apply Z.mul_lt_mono_pos_l in Hq1; [|assumption].
+    assert (Hq2 : 2 ^ k * q <= 2 ^ k * 2 ^ (64 - k)) by (apply Z.mul_le_mono_nonneg_l; lia).
+    lia. }
+  rewrite (wrap_small (top s + pad)) by lia.
+  destruct (top s + pad >? C) eqn:E3.
+  - destruct (top s + pad + rounded n <=? C) eqn:E4; [lia | reflexivity].
+  - assert (Hst1 : st_ok A C {| top := top s + pad; last := last s |}).
+    { unfold st_ok; cbn [top last]. split; [lia|]. split; [|lia].
+      replace (A + (top s + pad)) with (A + top s + pad) by lia. rewrite Hq, H8.
+      replace (8 * 2 ^ (k - 3) * q) with ((2 ^ (k - 3) * q) * 8) by lia. apply Z_mod_mult. }
+    rewrite bump_malloc_char by assumption. cbn [top last].
+    destruct (top s + pad + rounded n <=? C) eqn:E4.
+    + replace (A + (top s + pad)) with (A + top s + pad) by lia. reflexivity.
+    + rewrite state_eta. reflexivity.
+Qed.
+
 (* ---------------------------------------------------------------- initial offset *)
 Lemma bump_init_spec A :
   top (bump_init A) = (- A) mod 8 /\ last (bump_init A) = (- A) mod 8.
